@@ -208,13 +208,42 @@ pub fn check(ctx: &Ctx, c: &Case, case_seed: u64, mode: &str) {
         "length<threshold"
     };
     rep.inc(&format!("branch:{}", branch));
+    // class of the TE value: sequence of (coding class, weight class) – the raw string of a random
+    // TE value would make every random case "distinct"
+    let te_class = c.te.as_ref().map(|t| {
+        t.split(',')
+            .map(|e| {
+                let mut it = e.split(';');
+                let n = it.next().unwrap_or("").trim().to_ascii_lowercase();
+                let nc = match n.as_str() {
+                    "chunked" => "C",
+                    "identity" => "I",
+                    "" => "-",
+                    _ => "x",
+                };
+                let q: Vec<&str> = it.filter(|p| p.trim_start().to_ascii_lowercase().starts_with("q=")).collect();
+                let qc = match q.first().map(|p| p.trim()[2..].trim().to_string()) {
+                    None => "d".to_string(),
+                    Some(v) => match v.parse::<f64>() {
+                        Ok(x) if x.is_nan() => "nan".into(),
+                        Ok(x) if x <= 0.0 => "0".into(),
+                        Ok(x) if x >= 1.0 => "1".into(),
+                        Ok(x) => format!("{:.1}", x),
+                        Err(_) => "bad".into(),
+                    },
+                };
+                format!("{}{}{}", nc, qc, if q.len() > 1 { "+" } else { "" })
+            })
+            .collect::<Vec<_>>()
+            .join(",")
+    });
     let sig = format!(
         "{:?}|{}|{:?}|{:?}|{:?}|{}|{}|{}",
         c.version,
         c.status,
         c.len.map(|l| (l as i128) - (c.thr() as i128)).map(|d| d.clamp(-2, 2)),
         c.threshold,
-        c.te,
+        te_class,
         c.te_name,
         c.head,
         c.upgrade
